@@ -203,6 +203,7 @@ class RefSaslClient(DumbPeer):
         self.begun = False
         self.sent_lines = []
         self.cookie_used = None
+        self.cancel_with = b'CANCEL'
 
     def w(self, line):
         self.sent_lines.append(line)
@@ -243,6 +244,8 @@ class RefSaslClient(DumbPeer):
         elif cmd == b'DATA':
             if self.kind.startswith('EXTERNAL'):
                 self.w(b'DATA ' + hexs(self.uid))
+            elif self.kind == 'COOKIE-cancel':
+                return self.w(self.cancel_with)
             elif self.kind.startswith('COOKIE'):
                 try:
                     ctx, cid, chal = binascii.unhexlify(arg.strip()).split()
